@@ -249,9 +249,9 @@ theorem flush_ok {p : PState} (h : Rel p) (num lvl : Nat) (s' : State)
       simp only [List.not_mem_nil, not_false_eq_true, and_true, or_false]
       rw [hv0 q, hs']
     obtain ⟨hok, hR⟩ := rel_appendManifest h { walNumber := some p.c.wal, added := [], deleted := [] } s'
-      { p.c with immWal := none } hinv' hlast hget rfl rfl hver
-      (by rw [hs']; exact h.tables) (by rw [hs']) (Or.inr ⟨rfl, rfl, by rw [hs']⟩)
-    obtain ⟨hok2, hR2⟩ := rel_removeWal hR wi (by simp [Ctx.w0]; exact hlt)
+      { p.c with immWal := none, manWal := p.c.wal } hinv' hlast hget rfl rfl hver
+      (by rw [hs']; exact h.tables) (by rw [hs']) (Or.inr ⟨rfl, rfl, by rw [hs'], rfl⟩)
+    obtain ⟨hok2, hR2⟩ := rel_removeWal hR wi hlt
     refine ⟨?_, ?_, ?_⟩
     · simp only [opsOf, hi, hwi, List.cons_append, List.nil_append, List.foldl_cons, List.foldl_nil]
       rw [runOk_cons hok, runOk_cons hok2]; rfl
@@ -288,9 +288,9 @@ theorem flush_ok {p : PState} (h : Rel p) (num lvl : Nat) (s' : State)
       · rw [lookup_update]; simp
     obtain ⟨hok2, hR2⟩ := rel_appendManifest hR1
       { walNumber := some p.c.wal, added := [(lvl, num)], deleted := [] } s'
-      { p.c with immWal := none } hinv' hlast hget rfl rfl hver htab (by rw [hs'])
-      (Or.inr ⟨rfl, rfl, by rw [hs']⟩)
-    obtain ⟨hok3, hR3⟩ := rel_removeWal hR2 wi (by simp [Ctx.w0]; exact hlt)
+      { p.c with immWal := none, manWal := p.c.wal } hinv' hlast hget rfl rfl hver htab (by rw [hs'])
+      (Or.inr ⟨rfl, rfl, by rw [hs'], rfl⟩)
+    obtain ⟨hok3, hR3⟩ := rel_removeWal hR2 wi hlt
     refine ⟨?_, ?_, ?_⟩
     · simp only [opsOf, hi, hwi, List.cons_append, List.nil_append, List.foldl_cons, List.foldl_nil]
       rw [runOk_cons hok1, runOk_cons hok2, runOk_cons hok3]; rfl
@@ -357,7 +357,7 @@ theorem move_ok {p : PState} (h : Rel p) (num lvl : Nat) (s' : State)
     · exact h.tables lvl g hfm.1
   obtain ⟨hok, hR⟩ := rel_appendManifest h
     { walNumber := none, added := [(lvl + 1, num)], deleted := [(lvl, num)] } s' p.c
-    hinv' hlast hget rfl rfl hver htab (by rw [hs']) (Or.inl ⟨rfl, rfl, by rw [hs']⟩)
+    hinv' hlast hget rfl rfl hver htab (by rw [hs']) (Or.inl ⟨rfl, rfl, by rw [hs'], rfl⟩)
   refine ⟨?_, ?_, ?_⟩
   · simp only [opsOf, List.foldl_cons, List.foldl_nil]
     rw [runOk_cons hok]; rfl
@@ -477,7 +477,7 @@ theorem compact_ok {p : PState} (h : Rel p) (c : Compaction) (s' : State)
     · exact hl1 o ho
   -- 2. the edit
   obtain ⟨hok2, hR2⟩ := rel_appendManifest hR1 e s' p.c hinv' hlast hget rfl rfl hver htab
-    (by rw [hs']) (Or.inl ⟨rfl, rfl, by rw [hs']⟩)
+    (by rw [hs']) (Or.inl ⟨rfl, rfl, by rw [hs'], rfl⟩)
   -- 3. the input tables
   have hgone : ∀ n ∈ c.inputs0 ++ c.inputs1, ∀ l g, g ∈ lv s'.levels l → g.num ≠ n := by
     intro n hn l g hg hgn
